@@ -47,6 +47,9 @@ var Corpus = []Op{
 	{Name: "merge-across-type-conditions-union", Query: `{ items { ... on Node { owner { id name nick } } ... on User { owner { plain } } ... on Post { owner { t: plainReq } } } }`},
 	{Name: "merge-across-type-conditions-5", Query: `{ search { __typename ... on Node { owner { a: id b: name c: nick d: plain e: id } } ... on User { owner { rank } } ... on Post { owner { score } } } }`},
 	{Name: "merge-across-type-conditions-list", Query: `{ users { friends { id } } node(id:"1") { owner { id name nick } ... on User { owner { plain } } ... on Post { owner { plainReq } } } items { ... on Entity { id } } }`},
+	{Name: "scalar-lists", Query: `{ me { blobs blobsReq } users { blobs } }`},
+	{Name: "scalar-lists-nonnull-parent", Query: `{ me { boss { blobsReq } best { blobsReq blobs } } }`},
+	{Name: "op-directive-pass", Query: `query @opguard(mode:"pass") { hello me { id } }`},
 	{Name: "multi-op", Query: `query A { hello } query B { maybe me { name } }`, OpName: "B"},
 	{Name: "mutation-serial", Query: `mutation { a: inc(by:1) b: setName(id:"1", name:"x") { id name best { name } } c: inc(by:2) }`},
 	{Name: "mutation-boom", Query: `mutation { inc(by:1) boom { id name friends { name } } }`},
